@@ -478,6 +478,12 @@ func (c *simClient) Delete(cx context.Context, obj client.Object, opts ...client
 	if err := c.gate("delete"); err != nil {
 		return err
 	}
+	if _, isTrial := obj.(*trialsv1beta1.Trial); isTrial {
+		// deleteTrials: only reachable when more trials are active than parallelTrialCount allows. It is not simulated
+		// (the real code then busy-waits a minute for the informer); the write is refused, as World.apply_write does.
+		c.sim.Panics = append(c.sim.Panics, "deleteTrials path reached: more active trials than parallelTrialCount")
+		return errors.New("deleteTrials is not simulated")
+	}
 	err := c.note(c.WithWatch.Delete(cx, obj, opts...))
 	if u, ok := obj.(*unstructured.Unstructured); ok && err == nil && u.GetKind() == "Job" {
 		c.sim.JobDeletes = append(c.sim.JobDeletes, trialNum(u.GetName()))
